@@ -42,7 +42,10 @@ impl Record {
 
     pub fn alignment_end(&self) -> Option<Position> {
         self.alignment_start.and_then(|start| {
-            let end = usize::from(start) + self.alignment_span() - 1;
+            // A record with no alignment span, e.g., a placed unmapped record without bases,
+            // covers its alignment start.
+            let span = self.alignment_span().max(1);
+            let end = usize::from(start) + span - 1;
             Position::new(end)
         })
     }
